@@ -79,13 +79,14 @@ structure Res (s : State) : Prop where
   f1 : hsComplete s = true → s.fhSet = true
   f2 : s.finish = .awaitReady → s.st ≠ .closed → s.fhSet = true
   nr : s.discRaw = false
+  dc : s.disc = .done → s.discCancelled = true ∨ s.st = .closed
 
 theorem init_res (noise login : Bool) : Res { noise := noise, login := login } := by
   constructor <;> simp [hsComplete]
 
 set_option maxHeartbeats 4000000 in
 theorem prim_res (a b : State) (hl : C05.Inv a) (h : Res a) (p : Prim a b) : Res b := by
-  obtain ⟨t1, t2, t2r, t2w, t3, t3r, t3w, t4, t5, t5t, t6, t6p, r1, r5, r6, f1, f2, nr⟩ := h
+  obtain ⟨t1, t2, t2r, t2w, t3, t3r, t3w, t4, t5, t5t, t6, t6p, r1, r5, r6, f1, f2, nr, dc⟩ := h
   obtain ⟨l1, l2, l3, l4, l5, l6, l7, l8, l9, l10, l11, l12⟩ := hl
   cases p <;>
     (constructor <;>
@@ -173,7 +174,23 @@ theorem c08_keepalive_only_connected (noise login : Bool) (evs : List Ev) :
   let h := run_res noise login evs
   ⟨h.t6, h.t6p, h.f1⟩
 
+/-- **C08 (disconnect is a close cause at every stage).**  In every reachable state in which a
+`disconnect()` call has returned — whenever it was made: before the connect, while the address is
+being resolved, during the handshake, in steady state, after another close cause — the connection
+is closed, unless the caller cancelled the call. -/
+theorem c08_disconnect_closes (noise login : Bool) (evs : List Ev) :
+    let s := run { noise := noise, login := login } evs
+    s.disc = .done → s.discCancelled = false → s.st = .closed := by
+  intro s hd hc
+  rcases (run_res noise login evs).dc hd with h | h
+  · rw [hc] at h; cases h
+  · exact h
+
 /-! ## non-vacuity -/
+
+example : let s := run {} [.callStart, .callDisc]
+    s.disc = .done ∧ s.discCancelled = false ∧ s.st = .closed ∧ s.start ≠ .idle := by decide
+
 
 /-- DisconnectRequest followed by two more frames in the SAME chunk: nothing after the closing frame
 is delivered or answered -/
